@@ -93,17 +93,9 @@ def _write_replay(pr, name, payload):
     return os.path.relpath(path, VERIF)
 
 
-def _canary_obligations(rep):
-    """False post-condition on every obligation-bearing path end: at least one must be satisfiable,
-    otherwise the assumptions of that function are contradictory (vacuous proof)."""
-    seen = {}
-    for ob in rep.obligations:
-        if ob.kind in ("post", "post-exc") and ob.path_id not in seen and not ob.meta.get("trivial"):
-            seen[ob.path_id] = Obligation(rep.qualname + "#canary:false", "canary", ob.line, ob.facts, z3.BoolVal(False), ob.path_id)
-    return list(seen.values())
-
-
 def run_property(mod, tier, seed):
+    from . import refute
+
     pid = mod.ID
     pr = PropertyRun(pid, tier, seed)
     quick = tier == "quick"
@@ -114,42 +106,31 @@ def run_property(mod, tier, seed):
     open_known = [k for k in known if k.get("status") == "open"]
 
     specs = mod.specs()
-    reports = run.verify(specs, z3_ms=z3_ms, cvc5_ms=cvc5_ms, both=both)
     extra = mod.lemmas() if hasattr(mod, "lemmas") else []
-    lemma_rep = None
-    if extra:
-        lemma_rep = run.FunctionReport(type("L", (), {"file": "(lemmas)", "qualname": "lemmas"})())
-        lemma_rep.sha256 = "-"
-        lemma_rep.obligations = extra
-        res = solve.discharge(extra, z3_ms=z3_ms, cvc5_ms=cvc5_ms, both=both)
-        for ob, r in zip(extra, res):
-            r["obligation"] = ob
-            lemma_rep.results.append(r)
-        reports = reports + [lemma_rep]
+    reports = run.verify(specs, z3_ms=z3_ms, cvc5_ms=cvc5_ms, both=both, extra_obligations=extra)
 
     replay_table = getattr(mod, "REPLAY", {})
     used_open = set()
     for rep in reports:
-        fr = {"file": rep.file, "qualname": rep.qualname, "sha256": rep.sha256, "paths": rep.paths, "obligations": len(rep.results), "proved": 0}
+        qn = rep["qualname"] + ("[%s]" % rep["variant"] if rep.get("variant") else "")
+        fr = {"file": rep["file"], "qualname": qn, "sha256": rep["sha256"], "paths": rep["paths"], "obligations": len(rep["obligations"]), "proved": 0, "gen_time_s": rep.get("gen_time")}
         pr.fun_reports.append(fr)
-        if rep.error:
-            pr.errors.append("%s:%s: %s" % (rep.file, rep.qualname, rep.error))
+        if rep["error"]:
+            pr.errors.append("%s:%s: %s" % (rep["file"], qn, rep["error"]))
             continue
-        if not rep.results:
-            pr.errors.append("%s:%s: zero obligations generated" % (rep.file, rep.qualname))
+        if not rep["obligations"]:
+            pr.errors.append("%s:%s: zero obligations generated" % (rep["file"], qn))
             continue
-        # vacuity canary
-        if rep is not lemma_rep:
-            can = _canary_obligations(rep)
-            if can:
-                cres = solve.discharge(can, z3_ms=3000, cvc5_ms=3000)
-                pr.canaries["functions"] += 1
-                if any(c["status"] == "refuted" for c in cres):
-                    pr.canaries["refuted_false_post"] += 1
-                elif all(c["status"] == "proved" for c in cres):
-                    pr.errors.append("%s: every path end is unreachable under the contract's assumptions (vacuous)" % rep.qualname)
-        for res in rep.results:
-            ob = res["obligation"]
+        if rep["canaries"]:
+            pr.canaries["functions"] += 1
+            sts = [c["result"]["status"] for c in rep["canaries"]]
+            if any(x == "refuted" for x in sts):
+                pr.canaries["refuted_false_post"] += 1
+            elif all(x == "proved" for x in sts):
+                pr.errors.append("%s: every path end is unreachable under the contract's assumptions (vacuous proof)" % qn)
+        for ob in rep["obligations"]:
+            res = ob["result"]
+            name = ob["name"]
             pr.obl_total += 1
             for b in res["backends"]:
                 pr.solver_time += b["time_s"]
@@ -157,25 +138,35 @@ def run_property(mod, tier, seed):
                 pr.obl_proved += 1
                 fr["proved"] += 1
                 pr.by_backend[res["by"]] = pr.by_backend.get(res["by"], 0) + 1
-                if len(pr.samples) < 4 and not ob.meta.get("trivial") and ob.kind in ("post", "loop-preserve"):
-                    pr.samples.append({"obligation": res["name"], "kind": ob.kind, "status": "proved", "by": res["by"], "goal": str(ob.goal)[:400], "n_facts": len(ob.facts)})
+                if len(pr.samples) < 4 and not ob["trivial"] and ob["kind"] in ("post", "loop-preserve"):
+                    pr.samples.append({"obligation": name, "kind": ob["kind"], "status": "proved", "by": res["by"], "goal": ob["goal_text"][:400], "n_facts": ob["n_facts"]})
                 continue
-            bname = base_name(res["name"])
-            if res["status"] == "undecided":
-                pr.undecided.append(res["name"] + " " + json.dumps(res["backends"]))
+            bname = base_name(name)
+            status, model, how = res["status"], res["model"], "solver model (unbounded VC)"
+            if status == "undecided" and ob["smt2"]:
+                # the solvers gave up: bounded counterexample search on a quantifier-free instance of the VC
+                st2, m2 = refute.search_text(ob["smt2"], N=4, timeout_ms=z3_ms)
+                if st2 == "candidate":
+                    status, model, how = "candidate", m2, "model of the bounded quantifier-free instance (N=4); must reproduce natively"
+            if status == "undecided":
+                pr.undecided.append(name + " " + json.dumps(res["backends"]))
                 continue
-            # refuted
+            # refuted / candidate ------------------------------------------------------
             hits = [k for k in open_known if k["obligation"] == bname]
             handled = False
             for k in hits:
-                cls = (ob.meta.get("classes") or {}).get(k["class"])
-                if cls is None:
+                rtext = ob["residuals"].get(k["class"])
+                if rtext is None:
                     continue
-                # residual obligation: same clause with the known witness class excluded
-                resid = Obligation(ob.name + "[residual:%s]" % k["class"], ob.kind, ob.line, ob.facts + [z3.Not(cls)], ob.goal, ob.path_id)
-                rr = solve.discharge([resid], z3_ms=z3_ms, cvc5_ms=cvc5_ms)[0]
+                rr = solve.check_text(name + "[residual:%s]" % k["class"], rtext, z3_ms, cvc5_ms)
                 pr.residuals += 1
                 pr.obl_total += 1
+                if rr["status"] == "undecided":
+                    st2, m2 = refute.search_text(rtext, N=4, timeout_ms=z3_ms)
+                    if st2 == "none":
+                        rr["status"] = "bounded-none"
+                    elif st2 == "candidate":
+                        rr["status"], rr["model"] = "candidate", m2
                 if rr["status"] == "proved":
                     pr.obl_proved += 1
                     if (bname, k["class"]) not in used_open:
@@ -183,45 +174,51 @@ def run_property(mod, tier, seed):
                         pr.known_hits.append(k)
                     handled = True
                     break
-                elif rr["status"] == "refuted":
-                    res = dict(res, model=rr["model"], name=res["name"] + "[outside known class %s]" % k["class"])
+                if rr["status"] in ("refuted", "candidate"):
+                    status, model = rr["status"], rr["model"]
+                    name = name + "[outside known class %s]" % k["class"]
+                    how = "model of the residual obligation"
                 else:
-                    pr.undecided.append(resid.full_name())
+                    pr.undecided.append(name + "[residual:%s] " % k["class"] + json.dumps(rr.get("backends")))
                     handled = True
                     break
             if handled:
                 continue
-            # a violation not listed as a known finding: replay
             handler = replay_table.get(bname)
             payload = {
                 "property": pid,
-                "obligation": res["name"],
-                "function_sha256": rep.sha256,
-                "file": rep.file,
-                "kind": ob.kind,
-                "line": ob.line,
-                "goal": str(ob.goal)[:3000],
+                "obligation": name,
+                "function_sha256": rep["sha256"],
+                "file": rep["file"],
+                "kind": ob["kind"],
+                "line": ob["line"],
+                "goal": ob["goal_text"],
+                "verdict": status,
+                "how": how,
                 "solver": res["backends"],
-                "model": res["model"],
-                "meta": {k: v for k, v in ob.meta.items() if k != "classes"},
-                "baseline": "see baseline_obligations.json",
+                "model": model,
+                "meta": ob["meta"],
+                "baseline": baseline_status(pid, bname),
             }
             if handler:
-                out = native_replay(handler, {"model": res["model"], "obligation": res["name"]})
+                out = native_replay(handler, {"model": model, "obligation": name})
                 payload["replay_handler"] = handler
                 payload["native"] = out
-                if out.get("reproduced") is False:
-                    # model does not reproduce on the real code: encoding / contract error, not a defect
-                    path = _write_replay(pr, res["name"], payload)
-                    pr.undecided.append(res["name"] + " model-not-reproduced replay=" + path)
-                    continue
-                path = _write_replay(pr, res["name"], payload)
-                tail = "" if out.get("reproduced") else " no-failing-input-found"
-                pr.violations.append((res["name"], path, tail))
+                path = _write_replay(pr, name, payload)
+                if out.get("reproduced") is True:
+                    pr.violations.append((name, path, ""))
+                elif out.get("reproduced") is False or status == "candidate":
+                    # the model does not reproduce on the real code: encoding / contract imprecision, not a defect
+                    pr.undecided.append(name + " model-not-reproduced replay=" + path)
+                else:
+                    pr.violations.append((name, path, " no-failing-input-found"))
             else:
-                payload["native"] = {"reproduced": None, "detail": "no replay handler for this obligation; the solver output is attached"}
-                path = _write_replay(pr, res["name"], payload)
-                pr.violations.append((res["name"], path, " no-failing-input-found"))
+                payload["native"] = {"reproduced": None, "detail": "no native replay handler for this obligation; the solver output is attached"}
+                path = _write_replay(pr, name, payload)
+                if status == "candidate":
+                    pr.undecided.append(name + " bounded-candidate-without-replay replay=" + path)
+                else:
+                    pr.violations.append((name, path, " no-failing-input-found"))
 
     # bounded stand-ins (never counted as proved)
     if hasattr(mod, "bounded"):
@@ -229,6 +226,17 @@ def run_property(mod, tier, seed):
             pr.bounded.append(b)
 
     return finish(pr, mod, open_known, used_open)
+
+
+_baseline = None
+
+
+def baseline_status(pid, bname):
+    global _baseline
+    if _baseline is None:
+        p = os.path.join(VERIF, "baseline_obligations.json")
+        _baseline = json.load(open(p)) if os.path.exists(p) else {}
+    return _baseline.get(pid, {}).get(bname, "not recorded")
 
 
 def finish(pr, mod, open_known, used_open):
@@ -296,7 +304,7 @@ def write_evidence(pr, mod, code, n_viol):
             "trusted_base": sorted(set(getattr(mod, "TRUSTED", []))),
             "explanation": getattr(mod, "EXPLANATION", ""),
             "evaluations": max(pr.obl_total + b_evals, 1),
-            "distinct_nontrivial": max(len({base_name(f["qualname"]) for f in pr.fun_reports}) + b_distinct, 2) if (pr.obl_total + b_evals) > 1 else 0,
+            "distinct_nontrivial": len({f["qualname"] for f in pr.fun_reports if f["obligations"]}) + b_distinct,
             "rule": "one case per generated proof obligation (named <function>#<clause>@line:path) plus the bounded stand-in cases listed under 'bounded'; distinct_nontrivial counts functions under contract plus distinct non-trivial bounded cases",
             "samples": samples,
             "functions_under_contract": pr.fun_reports,
